@@ -221,6 +221,70 @@ func factsC08(r *Repo) []Fact {
 		out = append(out, boolFact("closeIncrements", incr, where))
 		out = append(out, boolFact("closeAtLen", atLen && nClose == 1, where))
 	}
+	// ---- the two forwarding goroutines (toStream): on exit the stream is closed for sending and the
+	// source reader is closed; the loop leaves on io.EOF and when send reports closed ----
+	for _, fw := range []struct{ recv, fact, self string }{
+		{"streamReaderWithConvert", "convForwarderClosesSource", "srw"},
+		{"childStreamReader", "childForwarderClosesSource", "csr"},
+	} {
+		fd, file := sp.Func(fw.recv, "toStream")
+		if fd == nil || fd.Body == nil {
+			out = append(out, unknownFact(fw.fact, "Bool", "false", "schema", fw.recv+".toStream not found"))
+			continue
+		}
+		ok := false
+		ast.Inspect(fd.Body, func(n ast.Node) bool {
+			gs, isGo := n.(*ast.GoStmt)
+			if !isGo {
+				return true
+			}
+			fl, isLit := gs.Call.Fun.(*ast.FuncLit)
+			if !isLit {
+				return true
+			}
+			deferOK, loopOK := false, false
+			for _, st := range fl.Body.List {
+				switch v := st.(type) {
+				case *ast.DeferStmt:
+					if dl, isDL := v.Call.Fun.(*ast.FuncLit); isDL {
+						// top-level statements of the deferred function (not inside the recover branch)
+						cs, cl := false, false
+						for _, ds := range dl.Body.List {
+							if es, isES := ds.(*ast.ExprStmt); isES {
+								switch exprString(es.X) {
+								case "ret.closeSend()":
+									cs = true
+								case fw.self + ".close()":
+									cl = true
+								}
+							}
+						}
+						deferOK = cs && cl
+					}
+				case *ast.ForStmt:
+					brEOF, brClosed := false, false
+					for _, ls := range v.Body.List {
+						if is, isIf := ls.(*ast.IfStmt); isIf && len(is.Body.List) == 1 {
+							if bs, isBr := is.Body.List[0].(*ast.BranchStmt); isBr && bs.Tok == token.BREAK {
+								switch exprString(is.Cond) {
+								case "err==io.EOF":
+									brEOF = true
+								case "closed":
+									brClosed = true
+								}
+							}
+						}
+					}
+					loopOK = brEOF && brClosed && containsSelCallExpr(v.Body, "ret.send") && containsSelCallExpr(v.Body, fw.self+".recv")
+				}
+			}
+			if deferOK && loopOK {
+				ok = true
+			}
+			return true
+		})
+		out = append(out, boolFact(fw.fact, ok, "schema/"+file+": "+fw.recv+".toStream"))
+	}
 	return out
 }
 
